@@ -190,7 +190,9 @@ class DensityMatrix(StateRepresentationBase):
                     f'measurement_determinism parameter must be "probabilistic", 0, or 1'
                 )
 
-            m, norm = projectors[outcome], probs[outcome]
+            # keep the (sub-normalised) trace: divide by the conditional probability of the outcome
+            total = np.sum(probs)
+            m, norm = projectors[outcome], (probs[outcome] / total if total > 0 else 1.0)
 
             # this assumes that the projector, m, has the properties: m = sqrt(m) and m = m.dag()
             self._data = (m @ self._data @ np.transpose(np.conjugate(m))) / norm
